@@ -47,7 +47,7 @@ theorem step_config (h : Rel seen y m) (ca cb cc : Cap) (hk : Bool) (hint : Opti
   have h1 := change_init (change (init cap) .resources .add) h0.1 .resources .add
   have v0 := change_ver_add (init cap) .resources
   have v1 := change_ver_add (change (init cap) .resources .add) .resources
-  refine ⟨srvOk_change (srvOk_change (srvOk_init cap) .resources .add) .resources .add, ?_, ?_, ?_, ?_, ?_, ?_, ?_⟩
+  refine ⟨srvOk_change (srvOk_change (srvOk_init cap) .resources .add) .resources .add, ?_, ?_, ?_, ?_, ?_, ?_, ?_, ?_⟩
   · refine ⟨?_, ?_, ?_, rfl⟩
     · simp only [freshState]; rw [h1.2.2.2.2.2.1, h0.2.2.2.2.2.1, ← hcap]; rfl
     · simp only [freshState]; rw [v1.1, v0.1]; funext f; cases f <;> simp [init]
@@ -80,6 +80,10 @@ theorem step_config (h : Rel seen y m) (ca cb cc : Cap) (hk : Bool) (hint : Opti
   · constructor
     · intro p hp; simp only [] at hp; rw [h1.1] at hp; simp at hp
     · intro k x hx; simp only [] at hx; rw [h1.2.2.2.2.2.2, h0.2.2.2.2.2.2] at hx; simp [init] at hx
+  · intro k hk'
+    simp only [] at hk'
+    rw [h1.2.2.2.2.2.2, h0.2.2.2.2.2.2] at hk'
+    simp [init] at hk'
 theorem featureKind_eq (f : FSet) : featureKind f = some (kindOfFSet f) := by cases f <;> rfl
 
 theorem change_eff (s : Server) (f : FSet) (e : Eff) (he : ¬(e = .noop ∨ (e = .remove ∧ s.cnt f = 0))) :
@@ -320,6 +324,12 @@ theorem step_change (h : Rel seen y m) (f : FSet) (e : Eff) (hint : Option Who) 
       constructor
       · rw [c4]; exact h.seen.sess
       · intro k; rw [c8]; exact h.seen.infl k
+    have hgate : ∀ k, ((change y.srv f e).ks k).inflight ≠ [] → gateSend (change y.srv f e) k = true := by
+      intro k hk'
+      rw [c8] at hk'
+      have := h.gate k hk'
+      simp only [gateSend, c1] at this ⊢
+      exact this
     rw [hmon]
     by_cases hoff : (m.cap (kindOfFSet f) == .off) = true
     · rw [if_pos hoff]
@@ -330,7 +340,7 @@ theorem step_change (h : Rel seen y m) (f : FSet) (e : Eff) (hint : Option Who) 
       refine ⟨srvOk_change h.srvOk f e, ⟨by show m.cap = (change y.srv f e).cap; rw [c1]; exact h.g.cap, by show _ = (change y.srv f e).ver; rw [c2]; exact hver,
           by show _ = (change y.srv f e).cnt; rw [c3]; exact hcnt, h.g.content⟩,
         hsess _ (fun _ => rfl) (fun _ => rfl), hlis _ (fun _ => rfl) (fun _ => rfl) (fun i hi => (h.lis.idle i hi).owed), ?_, hfan,
-        hcache _ (fun _ => rfl) (fun _ => rfl) (fun _ => rfl), hseen⟩
+        hcache _ (fun _ => rfl) (fun _ => rfl) (fun _ => rfl), hseen, hgate⟩
       have : (fun k => ((change y.srv f e).ks k).inflight) = fun k => (y.srv.ks k).inflight := funext c8
       show RelOwed (change y.srv f e).owed (fun k => ((change y.srv f e).ks k).inflight) _ m.slots
       rw [this, c9, hg]
@@ -345,7 +355,7 @@ theorem step_change (h : Rel seen y m) (f : FSet) (e : Eff) (hint : Option Who) 
         hsess _ (fun i => (changeSlot_frame _ _ _).1) (fun i => (changeSlot_frame _ _ _).2.1),
         hlis _ (fun i => (changeSlot_frame _ _ _).2.2.1) (fun i => (changeSlot_frame _ _ _).2.2.2.1) ?_, ?_, hfan,
         hcache _ (fun i => (changeSlot_frame _ _ _).2.2.2.2.1) (fun i => (changeSlot_frame _ _ _).2.2.2.2.2.1)
-          (fun i => (changeSlot_frame _ _ _).2.2.2.2.2.2.1), hseen⟩
+          (fun i => (changeSlot_frame _ _ _).2.2.2.2.2.2.1), hseen, hgate⟩
       · intro i hi
         rw [(changeSlot_frame _ _ _).2.2.2.2.2.2.2]
         have hc : (m.slots i).connected = false := by rw [h.sess.conn i]; exact hi
@@ -383,5 +393,171 @@ theorem step_change (h : Rel seen y m) (f : FSet) (e : Eff) (hint : Option Who) 
             refine List.mem_append_right _ (List.mem_map.2 ⟨_, hmem, ?_⟩)
             rw [hkk]
         · exact hold hk'
+
+/-- everything the relation reads of the server is the same (timers and the clock may differ) -/
+structure SameAll (s s' : Server) : Prop where
+  rest : SameRest s s'
+  listens : s'.listens = s.listens
+  acked : s'.acked = s.acked
+  rlive : s'.rlive = s.rlive
+
+theorem SameAll.refl (s : Server) : SameAll s s := ⟨SameRest.refl s, rfl, rfl, rfl⟩
+theorem SameAll.trans {a b c : Server} (h1 : SameAll a b) (h2 : SameAll b c) : SameAll a c :=
+  ⟨h1.rest.trans h2.rest, h2.listens.trans h1.listens, h2.acked.trans h1.acked, h2.rlive.trans h1.rlive⟩
+
+theorem sameAll_setK (s : Server) (k : Kind) (f : KState → KState) (hf : ∀ st, (f st).inflight = st.inflight) :
+    SameAll s (setK s k f) := by
+  refine ⟨⟨rfl, rfl, rfl, rfl, rfl, ?_⟩, rfl, rfl, rfl⟩
+  intro k'; simp only [setK]; split
+  · exact hf _
+  · rfl
+
+theorem sameAll_fireTracked (s : Server) (k : Kind) : SameAll s (fireTracked s k) := by
+  simp only [fireTracked]; split
+  · split
+    · exact sameAll_setK _ _ _ (fun _ => rfl)
+    · exact SameAll.refl s
+  · exact SameAll.refl s
+
+theorem sameAll_fireOrphan (s : Server) (k : Kind) (i : Nat) : SameAll s (fireOrphan s k i) := by
+  simp only [fireOrphan]; split
+  · split
+    · exact sameAll_setK _ _ _ (fun _ => rfl)
+    · exact SameAll.refl s
+  · exact SameAll.refl s
+
+theorem sameAll_fireOrphansDue (k : Kind) (fuel : Nat) : ∀ (s : Server) (acc : List Nat),
+    SameAll s (fireOrphansDue k fuel s acc).1 := by
+  induction fuel with
+  | zero => intro s acc; exact SameAll.refl s
+  | succ n ih =>
+    intro s acc
+    simp only [fireOrphansDue]
+    split
+    · exact (sameAll_fireOrphan s k _).trans (ih _ _)
+    · exact SameAll.refl s
+
+theorem sameAll_fireDue (s : Server) : SameAll s (fireDue s).1 := by
+  unfold fireDue
+  have : ∀ (l : List Kind) (acc : Server × List (Kind × Nat)), SameAll s acc.1 →
+      SameAll s (l.foldl (fun (acc : Server × List (Kind × Nat)) k =>
+        let s := acc.1
+        let (s, f1) := match (s.ks k).tracked with
+          | some (some d) => if d ≤ s.now then (fireTracked s k, [(k, d)]) else (s, [])
+          | _ => (s, [])
+        let (s, f2) := fireOrphansDue k ((s.ks k).orphans.length) s []
+        (s, acc.2 ++ f1 ++ f2.map (fun d => (k, d)))) acc).1 := by
+    intro l
+    induction l with
+    | nil => intro acc h; exact h
+    | cons k t ih =>
+      intro acc h
+      simp only [List.foldl_cons]
+      apply ih
+      simp only []
+      split
+      · split
+        · exact (h.trans (sameAll_fireTracked _ k)).trans (sameAll_fireOrphansDue k _ _ _)
+        · exact h.trans (sameAll_fireOrphansDue k _ _ _)
+      · exact h.trans (sameAll_fireOrphansDue k _ _ _)
+  exact this _ _ (SameAll.refl s)
+
+/-- slot `i` differs at most in the clocks of its caches -/
+def TickRel (d d' : DSlot) : Prop :=
+  d'.used = d.used ∧ d'.sid = d.sid ∧ d'.modern = d.modern ∧ d'.connected = d.connected ∧ d'.gated = d.gated ∧
+  d'.rsubs = d.rsubs ∧ d'.cancelHeld = d.cancelHeld ∧ d'.held = d.held ∧
+  (∀ o, ∃ n, d'.caches o = { d.caches o with now := n })
+
+theorem TickRel.refl (d : DSlot) : TickRel d d := ⟨rfl, rfl, rfl, rfl, rfl, rfl, rfl, rfl, fun _ => ⟨_, rfl⟩⟩
+
+theorem TickRel.trans {a b c : DSlot} (h1 : TickRel a b) (h2 : TickRel b c) : TickRel a c := by
+  obtain ⟨a1, a2, a3, a4, a5, a6, a7, a8, a9⟩ := h1
+  obtain ⟨b1, b2, b3, b4, b5, b6, b7, b8, b9⟩ := h2
+  refine ⟨b1.trans a1, b2.trans a2, b3.trans a3, b4.trans a4, b5.trans a5, b6.trans a6, b7.trans a7, b8.trans a8, ?_⟩
+  intro o
+  obtain ⟨n1, e1⟩ := a9 o
+  obtain ⟨n2, e2⟩ := b9 o
+  exact ⟨n2, by rw [e2, e1]⟩
+
+theorem tickRel_cacheAll (y : State) (o : CacheObj) (dt : Nat) (i : Slot) :
+    TickRel (y.slots i) ((y.cacheAll o (.tick dt)).slots i) := by
+  rw [cacheAll_slots]
+  split
+  · refine ⟨rfl, rfl, rfl, rfl, rfl, rfl, rfl, rfl, ?_⟩
+    intro o'
+    rw [setCache_caches]
+    split
+    · rename_i e; subst e; exact ⟨_, rfl⟩
+    · exact ⟨_, rfl⟩
+  · exact TickRel.refl _
+
+theorem tickRel_tickAll (y : State) (dt : Nat) (i : Slot) : TickRel (y.slots i) ((y.tickAll dt).slots i) := by
+  unfold State.tickAll
+  generalize CacheObj.all = l
+  induction l generalizing y with
+  | nil => exact TickRel.refl _
+  | cons o t ih =>
+    simp only [List.foldl_cons]
+    exact (tickRel_cacheAll y o dt i).trans (ih _)
+
+theorem tickAll_srv (y : State) (dt : Nat) : (y.tickAll dt).srv = y.srv ∧ (y.tickAll dt).content = y.content ∧
+    (y.tickAll dt).hook = y.hook := by
+  unfold State.tickAll
+  generalize CacheObj.all = l
+  induction l generalizing y with
+  | nil => exact ⟨rfl, rfl, rfl⟩
+  | cons o t ih =>
+    simp only [List.foldl_cons]
+    have := ih (y.cacheAll o (.tick dt))
+    exact ⟨this.1.trans rfl, this.2.1.trans rfl, this.2.2.trans rfl⟩
+
+theorem step_advance (h : Rel seen y m) (d : Nat) (hint : Option Who) : StepOk seen y m (.advance d) hint := by
+  unfold StepOk
+  simp only [sysStep]
+  have hm : ∀ o, monNext m ⟨.advance d, o⟩ = m := fun _ => rfl
+  have hc : ∀ o, monCheck m ⟨.advance d, o⟩ = none := fun _ => rfl
+  refine ⟨hc _, ?_⟩
+  rw [hm]
+  show Rel seen _ m
+  obtain ⟨y1, hy1⟩ : ∃ y1, y1 = ({ y with srv := { y.srv with now := y.srv.now + d } } : State).tickAll d := ⟨_, rfl⟩
+  have hs1 := tickAll_srv ({ y with srv := { y.srv with now := y.srv.now + d } } : State) d
+  rw [← hy1] at hs1
+  have hT : ∀ i, TickRel (y.slots i) (y1.slots i) := by
+    intro i; rw [hy1]; exact tickRel_tickAll _ d i
+  obtain ⟨fd, hfd⟩ : ∃ fd, fd = fireDue y1.srv := ⟨_, rfl⟩
+  have hall : SameAll y.srv fd.1 := by
+    have h0 : SameAll y.srv y1.srv := by
+      rw [hs1.1]; exact ⟨⟨rfl, rfl, rfl, rfl, rfl, fun _ => rfl⟩, rfl, rfl, rfl⟩
+    rw [hfd]
+    exact h0.trans (sameAll_fireDue _)
+  have hok : SrvOk fd.1 := by
+    rw [hfd]
+    apply srvOk_fireDue
+    rw [hs1.1]
+    exact srvOk_tick h.srvOk d
+  have hlis : RelListen fd.1 y1.slots m.slots := by
+    have := h.lis.congr (slots' := y1.slots) (ms' := m.slots) (fun i => (hT i).1) (fun i => (hT i).2.1) (fun i => (hT i).2.2.1)
+      (fun i u hx => by rw [(hT i).2.2.2.2.2.1, (hT i).2.2.2.2.2.2.1]; exact hx) (fun i => (hT i).2.2.2.2.1)
+      (fun _ => rfl) (fun _ => rfl) (fun _ => rfl)
+    exact ⟨by rw [hall.listens, hall.acked]; exact this.all_acked,
+      by rw [hall.listens]; exact this.listens, by rw [hall.rlive]; exact this.luris,
+      by rw [hall.listens]; exact this.sub_live, by rw [hall.listens]; exact this.gated_none, this.idle⟩
+  have key : Rel seen { y1 with srv := fd.1 } m := by
+    refine h.listen_frame (y' := { y1 with srv := fd.1 }) (m' := m) hok hall.rest hs1.2.1
+      (fun i => (hT i).1) (fun i => (hT i).2.1) (fun i => (hT i).2.2.1) ?_ ?_ ?_ (fun _ => rfl) (fun _ => rfl) (fun _ => rfl)
+      rfl rfl rfl rfl rfl hlis
+    · intro j hj
+      show (y1.slots j).connected = !(y1.slots j).gated
+      rw [(hT j).2.2.2.1, (hT j).2.2.2.2.1]
+      exact h.sess.gated j (by rw [← (hT j).1]; exact hj)
+    · intro j hj hg
+      show (y1.slots j).modern = true
+      rw [(hT j).2.2.1]
+      exact h.sess.gated_modern j (by rw [← (hT j).1]; exact hj) (by rw [← (hT j).2.2.2.2.1]; exact hg)
+    · intro j hj hcr
+      exact hcr.now (hT j).2.2.1 (hT j).2.2.2.2.2.2.2.1 (hT j).2.2.2.2.2.2.2.2 rfl rfl rfl
+  rw [← hy1, ← hfd]
+  split <;> exact key
+
 
 end Notify.Bridge
